@@ -112,6 +112,7 @@ def toTag (t : Term) : VTag :=
   let s := t.name
   if s == "required" then .required
   else if s == "endpoint" then .endpoint
+  else if s == "url-path" then .urlPath
   else if s == "dive" then .dive
   else if s == "omitempty" then .omitempty
   else if s.startsWith "min=" then
@@ -121,6 +122,10 @@ def toTag (t : Term) : VTag :=
   else if s.startsWith "min-time=" then
     match parseDuration (s.drop 9).toString.toList with
     | some ns => .minTime ns
+    | none => .other s.toList
+  else if s.startsWith "max-time=" then
+    match parseDuration (s.drop 9).toString.toList with
+    | some ns => .maxTime ns
     | none => .other s.toList
   else if s.startsWith "eq=" then
     -- eq=a|eq=b|eq=c
@@ -291,6 +296,18 @@ partial def touchesAlts : Alts → Str → Val → Bool
   | .cons n _ s rest, name, v => if n == name then touchesUnmodelled s v else touchesAlts rest name v
 end
 
+/-- a number the configuration-value syntax of the model cannot name (`d(+Inf)`, `d(NaN)`) -/
+partial def hasNonFinite (t : Term) : Bool :=
+  (t.name == "d" && (match t.args with
+    | [a] => (parseDecLit a.name.toList).isNone
+    | _ => true)) || t.args.any hasNonFinite
+
+/-- a constraint case whose value lies outside what the model describes of the libraries (IPv6 host, very long label) -/
+def consOutside (tags : List VTag) (v : DVal) : Bool :=
+  match v with
+  | .str s => (tags.any fun t => match t with | .endpoint => true | _ => false) && !endpointInModel s
+  | _ => false
+
 /-! ## the handler -/
 
 def parseKind (s : String) : Option Kind :=
@@ -333,6 +350,7 @@ def failKey (kind : String) (why : String) : String :=
   let base :=
     if kind == "unknown" || kind == "misspelled" then "unknown-key-accepted"
     else if kind == "mistyped" then "mistyped-accepted"
+    else if kind == "cons" then (if why == "accepted" then "constraint-accepted" else "valid-config")
     else if kind == "oor" || kind == "doc" || (kind == "typeonly" && why == "accepted") then "constraint-accepted"
     else if kind == "ph-unset" || kind == "ph-noprop" || kind == "ph-nofile" then "placeholder-missing-accepted"
     else if kind == "null" || kind == "base" then "default-lost"
@@ -356,7 +374,10 @@ def handle : Handler := fun input implFull =>
   let isCli := kind == "cli"
   -- model
   let out := if isCli then cliRead repoFlags env sch cfg else decodeAndValidate repoFlags env sch cfg
-  let unmodelled := touchesUnmodelled sch cfg
+  let consTags : List VTag := (parseTerm (getS kv "tags" "v()")).args.map toTag
+  let consVal : DVal := toDVal (parseTerm (getS kv "want" "nil"))
+  let unmodelled := touchesUnmodelled sch cfg || hasNonFinite (parseTerm (getS kv "cfg")) ||
+    (getS kv "exp" == "meets" && consOutside consTags consVal)
   let obs := parseObs impl
   let modelObs : String :=
     match out with
@@ -381,6 +402,7 @@ def handle : Handler := fun input implFull =>
       match parseKind (getS kv "fk") with
       | some k => .cast at_ k (sArg (parseTerm (getS kv "raw")))
       | none => .nothing
+    | "meets" => .meets at_ consTags consVal
     | "disc" =>
       match expectDisc cfg with
       | some ds => .disc ds
